@@ -55,7 +55,9 @@ fn matrix(r: &mut Rng) -> [[i64; 4]; 3] {
     m
 }
 
-pub fn gen_doc(r: &mut Rng, with_h: bool, mixed_alt: bool) -> CifDoc {
+pub fn gen_doc(r: &mut Rng, with_h: bool, mixed_alt: bool) -> CifDoc { gen_doc_ids(r, with_h, mixed_alt, false) }
+
+pub fn gen_doc_ids(r: &mut Rng, with_h: bool, mixed_alt: bool, numeric_ids: bool) -> CifDoc {
     let mut d = CifDoc { name: r.pick(&["1ABC", "test", "4HHB_x", "7"]).to_string(), ..Default::default() };
     if r.chance(1, 2) { d.cell = Some([r.range(1000, 99_999) * 1000, r.range(1000, 99_999) * 1000, r.range(1000, 99_999) * 1000, 90_000_000, r.range(6000, 12_000) * 10_000, 90_000_000]); }
     if r.chance(1, 2) {
@@ -71,7 +73,8 @@ pub fn gen_doc(r: &mut Rng, with_h: bool, mixed_alt: bool) -> CifDoc {
     let has = |d: &CifDoc, c: &str| d.cols.contains(&c);
     let names = ["N", "CA", "C", "O", "CB", "OG", "SG", "ZN", "X1"];
     let hnames = ["H", "HA", "HB2"];
-    let comps = ["ALA", "GLY", "SER", "HOH", "MG", "ala", "A1B"];
+    // ligand ids such as 017 or 1E5 are numbers to a CIF lexer
+    let comps: Vec<&str> = if numeric_ids { vec!["ALA", "017", "1E5", "HOH", "0.50", "+7"] } else { vec!["ALA", "GLY", "SER", "HOH", "MG", "ala", "A1B"] };
     let chains = ["A", "B", "AA", "x", "1", "C-2"];
     let n_models = match r.below(4) { 0 => 2, 1 => 3, _ => 1 };
     let n_chains = 1 + r.below(3);
@@ -79,7 +82,7 @@ pub fn gen_doc(r: &mut Rng, with_h: bool, mixed_alt: bool) -> CifDoc {
     let mut id = 0usize;
     for ci in 0..n_chains {
         let label = ((b'A' + ci as u8) as char).to_string();
-        let auth = chains[(ci + r.below(3)) % chains.len()].to_string();
+        let auth = chains[(ci * 2 + r.below(2)) % chains.len()].to_string();
         let mut seq = r.range(-20, 200);
         for ri in 0..1 + r.below(4) {
             seq += 1 + if r.chance(1, 5) { r.range(1, 5) } else { 0 };
@@ -91,14 +94,14 @@ pub fn gen_doc(r: &mut Rng, with_h: bool, mixed_alt: bool) -> CifDoc {
                     let n = names[(ai + r.below(2)) % names.len()];
                     (n.to_string(), if n == "ZN" { "ZN".to_string() } else if n == "X1" { String::new() } else { n[..1].to_string() })
                 };
-                let alts: Vec<Option<String>> = match altmode { 0 if mixed_alt && ai >= 1 => vec![Some("A".into()), Some("B".into())], 0 | 1 => vec![Some("A".into()), Some("b".into())], _ => vec![None] };
+                let alts: Vec<Option<String>> = match altmode { 0 if mixed_alt => if ai >= 1 { vec![Some("A".into()), Some("B".into())] } else { vec![None] }, 0 | 1 => vec![Some("A".into()), Some("b".into())], _ => vec![None] };
                 for alt in alts {
                     id += 1;
                     shape.push(CifRow {
                         group: if comp == "HOH" || comp == "MG" { "HETATM".into() } else { "ATOM".into() },
                         id: id.to_string(), element: el.clone(), name: nm.clone(), alt, comp: comp.clone(),
                         label_asym: label.clone(), auth_asym: Some(auth.clone()),
-                        label_seq: if comp == "HOH" && r.chance(1, 2) { None } else { Some(ri as i64 + 1) },
+                        label_seq: if comp == "HOH" && has(&d, "auth_seq_id") && r.chance(1, 2) { None } else { Some(ri as i64 + 1) },
                         auth_seq: Some(seq), ins: ins.clone(),
                         x: r.range(-9_999_999, 9_999_999) * 1000, y: r.range(-999_999, 999_999) * 10, z: r.range(-99_999, 99_999) * 1000,
                         occ: r.range(0, 100) * 10_000, b: r.range(0, 99_999) * 1000,
@@ -367,10 +370,11 @@ pub fn expected(d: &CifDoc) -> Option<PDB> {
 /// the shared atoms, which the independent expectation does not reproduce)
 pub fn has_mixed_alt(d: &CifDoc) -> bool {
     use std::collections::HashMap;
-    let mut m: HashMap<(usize, String, i64, Option<String>), (bool, bool)> = HashMap::new();
+    let mut m: HashMap<(usize, String, i64, Option<String>), Vec<(String, Option<String>)>> = HashMap::new();
     for x in &d.rows {
-        let e = m.entry((x.model, x.auth_asym.clone().unwrap_or_else(|| x.label_asym.clone()), x.auth_seq.or(x.label_seq).unwrap_or(0), x.ins.clone())).or_insert((false, false));
-        if x.alt.is_some() { e.0 = true; } else { e.1 = true; }
+        let e = m.entry((x.model, x.auth_asym.clone().unwrap_or_else(|| x.label_asym.clone()), x.auth_seq.or(x.label_seq).unwrap_or(0), x.ins.as_ref().map(|i| i.to_ascii_uppercase()))).or_default();
+        let k = (x.comp.to_ascii_uppercase(), x.alt.as_ref().map(|a| a.to_ascii_uppercase()));
+        if !e.contains(&k) { e.push(k); }
     }
-    m.values().any(|v| v.0 && v.1)
+    m.values().any(|v| v.len() > 1 && v.iter().any(|k| k.1.is_none()))
 }
